@@ -1,7 +1,7 @@
 """C16 — LV-DAG conversion round-trips; Evans simplification keeps the observed model.
 
 Correspondence: `to_latent_variable_dag` / `_latent_dag`, `from_latent_variable_dag`, the four rules and
-`simplify_latent_dag`, `evans_simplify` — real code vs the Lean model (Y0.Model.Latent), compared as sets
+`simplify_latent_dag`, `evans_simplify`, `taheri_design._get_result` — real code vs the Lean model (Y0.Model.Latent), compared as sets
 (nodes, edges, latent tags, reported widow / unidirectional / redundant sets; mixed graphs up to `__eq__`).
 
 Oracle (harness/oracles/latent_proj.py, written from the property statement): round trip returns an equal
@@ -29,21 +29,25 @@ SUF = "_prime"
 RULE = ("ops: roundtrip (ADMGs 0-8 nodes with isolated / bidirected-only nodes, up to 28 bidirected edges), simplify "
         "(random DAGs <=8 nodes with random latent tags + structured families: chains of latents, widow chains, latents "
         "with parents, with 0/1/many children, duplicate and nested child sets, isolated latents/observed), evans "
-        "(ADMG + extra latent set), from_lv (arbitrary tagged DAGs incl. untagged nodes), design (taheri _get_result, "
-        "oracle only); malformed stream: cyclic graphs, untagged nodes; name-collision stream (a node already called "
-        "u_i / v_prime); small-scope slice: every DAG on <=3 (quick) / <=5 (thorough) nodes x every latent subset; thorough "
+        "(ADMG + extra latent set), from_lv (arbitrary tagged DAGs incl. untagged nodes), design (taheri _get_result: verdict and the four node/edge counts "
+        "compared with the model, verdict checked by ID on the independent projection); malformed stream: cyclic graphs, untagged nodes; name-collision stream (a node already called "
+        "u_i / v_prime); rule-1 stream (hard_dag: R->U->L->C with U->A, three nested latents, latents whose children are "
+        "partly latent, a latent parent above the head, `<latent>_prime` names already taken); u_i stream (hard_admg: "
+        ">=2 bidirected edges and 1-3 observed nodes called u_j, j <= number of bidirected edges); small-scope slice: every DAG on <=3 (quick) / <=5 (thorough) nodes x every latent subset; thorough "
         "adds DAGs up to 11 nodes with sampled separation triples. A simplify/evans case is non-trivial when at least one rule changed the graph "
         "and at least two observed nodes remain; a roundtrip case when it has an edge-less node or >=2 bidirected edges.")
 ASSUMPTIONS = [
-    "clause 'separation relations among observed nodes are unchanged': simplify_dsep_invariant (d-connection inside the LV-DAG unchanged), dsep_iff_msep_projection (= m-connection of the latent projection) and verdict_invariant (every test computed from the projected graph) are theorems for the WALK formulation of d-/m-connection (collider needs a descendant-or-self in Z, every other inner node outside Z). Not mechanised: that the walk formulation agrees with the textbook PATH formulation (a connecting walk shortens to a connecting path) and that y0's are_d_separated computes it (property C04); the oracle cross-checks walk vs path enumeration on every generated case, on the DAG and on the projection",
-    "clause 'identifiability verdicts unchanged': theorem by congruence only (ID as any function of the mixed graph that respects NxMixedGraph.__eq__); that y0's identify() respects __eq__ is not proved here; the harness runs identify_outcomes on the independent projection and on y0's output for sampled queries",
+    "clause 'separation relations among observed nodes are unchanged': proved in full for observed a != b and observed conditioning sets not containing them. The walk formulation used by simplify_dsep_invariant / dsep_iff_msep_projection is proved equal to the textbook simple-PATH definition MG.MConnPath of property C04 (dconn_walk_iff_path, mconn_walk_iff_path), and the clause is restated with it and with the executable C04 model MG.dSeparated (lvdag_dsep_model_eq_projection, simplify_preserves_dsep_model, simplify_dsep_verdict_iff_no_path). What ties MG.dSeparated to y0's are_d_separated is property C04's correspondence check, not C16's; the C16 oracle still cross-checks walk vs path enumeration on every generated case, on the DAG and on the projection",
+    "clause 'identifiability verdicts unchanged': proved without a congruence hypothesis for the ID MODEL of property C02 (Y0/Model/Id.lean): id_verdict_equiv_congr (the verdict of `identify` is the same on two graphs that are NxMixedGraph.__eq__, for every pair of admissible topological sorters: the orders networkx returns may differ between the two graphs), simplify_id_verdict, evans_id_verdict, evans_id_verdict_latents. Assumed about networkx: TopoGood (topological_sort of a well-formed acyclic graph returns a list of exactly the nodes). What ties the ID model to y0's identify() is property C02's correspondence check, not C16's; the C16 harness still runs identify_outcomes on the independent projection and on y0's output for sampled queries",
     "theorem hypotheses: D.WF (distinct nodes/edges, edge endpoints are nodes, every node tagged: what building an nx.DiGraph gives), D.Acyclic, and for the names only `Function.Injective fresh` (u_i distinct) and `forall n, n < prime n` (a primed name is a longer string); bidirected self-loops are excluded from the round trip (not an ADMG)",
     "networkx topological_sort on a graph mutated during iteration is modelled as the order of the input graph (argued in Model/Latent.lean); correspondence compares results as sets, names invented for new latents are compared by their child sets",
     "in-place mutation: simplify_latent_dag mutates its argument and leaves it half-rewritten when it raises; the model is pure and returns the final graph (runtime clause, not claimed)",
+    "taheri_design._get_result: modelled up to the verdict (identify succeeded / Unidentifiable), the four counts and the returned ADMG; `canonicalize` of the returned estimand and the echoed `latents` / `observed` arguments are not modelled; the driver runs the ID model with the model of nx.topological_sort (the verdict does not depend on the order: id_verdict_equiv_congr)",
     "non-Variable nodes (_assert_variable_nodes TypeError), counterfactual graphs (raise_on_counterfactual) and non-default tag / prefix / start / suffix arguments are outside the model",
 ]
 EXHAUSTIVE = {"quick": False, "thorough": False}
 LEANCHECK_MODULES = ["Y0.Model.Latent", "Y0.Props.C16"]
+TRUSTED_EXTRA = ["lean/Y0/Spec/LatentSpec.lean", "lean/Y0/Spec/SepSpec.lean (MConnPath)", "lean/Y0/Lemmas/IdTotal.lean (ValidQuery, TopoGood)"]
 
 ERRS = None  # filled lazily (needs networkx)
 
@@ -98,6 +102,16 @@ CORPUS = [
     {"op": "simplify", "d": _d([["PA", "L"], ["L", "C"], ["L", "D"], ["L_prime", "C"], ["L_prime", "D"], ["L_prime", "E"]], ["L", "L_prime"])},
     {"op": "roundtrip", "g": {"nodes": ["u_0", "A", "B"], "di": [["u_0", "B"]], "bi": [["A", "B"]]}},
     {"op": "evans", "g": {"nodes": ["u_0", "A", "B"], "di": [], "bi": [["A", "B"]]}, "extra": []},
+    # rule 1 on a chain headed by a latent with a parent: R -> U -> L -> C, U -> A (projection has A <-> C);
+    # three nested latents; a latent whose children are partly latent (witnesses of seeded bug C16b)
+    {"op": "simplify", "d": _d([["R", "U"], ["U", "L"], ["L", "C"], ["U", "A"]], ["U", "L"])},
+    {"op": "simplify", "d": _d([["PA", "U1"], ["U1", "U2"], ["U2", "U3"], ["U3", "C"], ["U1", "A"], ["U2", "B"]], ["U1", "U2", "U3"])},
+    {"op": "simplify", "d": _d([["R", "U"], ["U", "L1"], ["U", "L2"], ["U", "A"], ["L1", "C1"], ["L2", "C2"]], ["U", "L1", "L2"])},
+    {"op": "simplify", "d": _d([["R", "U"], ["U", "L"], ["L", "C"], ["U", "A"], ["U_prime", "A"], ["U_prime", "R"]], ["U", "L"])},
+    # several bidirected edges next to observed nodes called u_1 / u_0,u_2 (witnesses of seeded bug C16a)
+    {"op": "roundtrip", "g": {"nodes": ["u_1", "A", "B"], "di": [], "bi": [["A", "B"], ["B", "u_1"]]}},
+    {"op": "roundtrip", "g": {"nodes": ["u_0", "u_2", "A", "B", "C"], "di": [["u_0", "A"]], "bi": [["A", "B"], ["B", "C"], ["u_2", "C"]]}},
+    {"op": "evans", "g": {"nodes": ["u_1", "A", "B", "M"], "di": [["A", "M"], ["M", "B"]], "bi": [["A", "B"], ["M", "u_1"]]}, "extra": ["M"]},
     {"op": "from_lv", "d": _d([["L", "X"], ["L", "Y"], ["X", "Y"]], ["L"], nodes=["Z"])},
     {"op": "from_lv", "d": _d([["L", "X"]], ["L"], nodes=["Q1"], untagged=["Q1"])},
     {"op": "design", "d": _d([["L", "X"], ["L", "Y"], ["X", "Y"]], ["L"]), "cause": "X", "effect": "Y"},
@@ -224,6 +238,112 @@ def rand_admg(rng, nmax=8, collide=0.0):
             "bi": [[ren[u], ren[v]] for u, v in g["bi"]]}
 
 
+def hard_dag(rng):
+    """families aimed at rule 1 (a latent WITH a parent heading a chain of latents; latents whose children are
+    partly latent; three nested latents) and at the names the code invents (`v_prime` already a node)"""
+    kind = rng.choice(["headed_chain", "three_nested", "partly_latent_children", "latent_parent_of_head"])
+    o = [nm(i) for i in rng.sample(range(8), 6)]          # observed pool
+    lp = [nm(i) for i in rng.sample(range(8, 14), 5)]     # latent pool
+    edges, latent = [], []
+    if kind == "headed_chain":
+        # R -> U -> L -> C, U -> A (U, L latent): the exogenous copy of U must reach C through L
+        R, A, Cn, B = o[0], o[1], o[2], o[3]
+        U, L = lp[0], lp[1]
+        latent = [U, L]
+        edges = [[R, U], [U, L], [L, Cn], [U, A]]
+        if rng.random() < 0.4:
+            edges.append([L, B])
+        if rng.random() < 0.3:
+            edges.append([R, A])
+        if rng.random() < 0.3:
+            edges.append([A, Cn])
+    elif kind == "three_nested":
+        # P -> U1 -> U2 -> U3 -> C3, side children A1 <- U1, A2 <- U2 (at least two observed leaves)
+        P, A1, A2, C3 = o[0], o[1], o[2], o[3]
+        U1, U2, U3 = lp[0], lp[1], lp[2]
+        latent = [U1, U2, U3]
+        edges = [[U1, U2], [U2, U3], [U3, C3]]
+        side = [[U1, A1], [U2, A2]]
+        rng.shuffle(side)
+        edges += side[:rng.randint(1, 2)]
+        if rng.random() < 0.8:
+            edges.append([P, U1])
+        if rng.random() < 0.3:
+            edges.append([U3, o[4]])
+        if rng.random() < 0.3:
+            edges.append([U1, U3])
+    elif kind == "partly_latent_children":
+        # U -> {L1, L2, A}; L1 -> C1; L2 -> C2: children of U partly latent
+        U, L1, L2 = lp[0], lp[1], lp[2]
+        A, C1, C2, R = o[0], o[1], o[2], o[3]
+        latent = [U, L1, L2]
+        edges = [[U, L1], [L1, C1]]
+        if rng.random() < 0.7:
+            edges.append([U, A])
+        if rng.random() < 0.7:
+            edges += [[U, L2], [L2, C2]]
+        if rng.random() < 0.6:
+            edges.append([R, U])
+        if rng.random() < 0.3:
+            edges.append([L1, L2])
+        if rng.random() < 0.3:
+            edges.append([R, L1])
+    else:
+        # W -> U -> L -> C, U -> A with W latent too (W exogenous or with an observed parent)
+        W, U, L = lp[0], lp[1], lp[2]
+        A, Cn, R, B = o[0], o[1], o[2], o[3]
+        latent = [W, U, L]
+        edges = [[W, U], [U, L], [L, Cn], [U, A]]
+        if rng.random() < 0.5:
+            edges.append([R, W])
+        if rng.random() < 0.5:
+            edges.append([W, B])
+    for i in range(4):
+        for j in range(i + 1, 4):
+            if rng.random() < 0.12:
+                edges.append([o[i], o[j]])
+    edges = [list(x) for x in dict.fromkeys(tuple(e) for e in edges)]
+    nodes = list(dict.fromkeys([x for e in edges for x in e]))
+    good = []
+    for e in edges:
+        if O.is_acyclic(nodes, good + [e]):
+            good.append(e)
+    # the names rule 1 wants to use are already taken (observed or latent nodes called `<latent>_prime…`)
+    if rng.random() < 0.45:
+        pa = {v for _, v in good}
+        ch = {u for u, _ in good}
+        mids = [l for l in latent if l in pa and l in ch]
+        for l in rng.sample(mids, min(len(mids), rng.randint(1, 2))):
+            for depth in range(1, rng.choice([1, 1, 2]) + 1):
+                new = l + SUF * depth
+                nodes.append(new)
+                if rng.random() < 0.4:
+                    latent = latent + [new]
+                obs_now = [v for v in nodes if v not in latent and v != new]
+                for t in rng.sample(obs_now, min(len(obs_now), rng.randint(0, 2))):
+                    good.append([new, t])
+    rng.shuffle(nodes)
+    rng.shuffle(good)
+    return {"nodes": nodes, "edges": good, "latent": list(latent), "untagged": []}
+
+
+def hard_admg(rng):
+    """ADMGs with several bidirected edges in which observed nodes are already called like the latents
+    `_latent_dag` generates (`u_0`, `u_1`, …), some of them endpoints of bidirected edges"""
+    n = rng.randint(3, 6)
+    k_u = rng.randint(1, 3)
+    base = [nm(i) for i in rng.sample(range(14), n)]
+    pairs = list(itt.combinations(range(n + k_u), 2))
+    m = rng.randint(2, min(6, len(pairs)))
+    us = [f"u_{j}" for j in rng.sample(range(m + 1), min(m + 1, k_u))]
+    names = base + us
+    rng.shuffle(names)
+    bi = [[names[i], names[j]] if rng.random() < 0.5 else [names[j], names[i]] for i, j in rng.sample(pairs, m)]
+    di = [[names[i], names[j]] for i, j in pairs if rng.random() < 0.2]
+    nodes = [v for v in names if rng.random() < 0.7]
+    return {"nodes": nodes, "di": di, "bi": bi}
+
+
 def _corpus_files():
     """witnesses kept under corpus/C16/*.json (replay files of past violations: key "case")"""
     out = []
@@ -316,6 +436,15 @@ def cases(rng: random.Random, tier: str):
             else:
                 nodes = G.all_nodes(g)
                 out.append({"op": "evans", "g": g, "extra": [v for v in nodes if rng.random() < 0.3]})
+    for _ in range(110 * k):  # rule 1 on chains headed by a latent with a parent, partly latent children, taken names
+        out.append({"op": "simplify", "d": hard_dag(rng)})
+    for _ in range(50 * k):   # observed nodes called u_0, u_1, … next to several bidirected edges
+        g = hard_admg(rng)
+        if rng.random() < 0.6:
+            out.append({"op": "roundtrip", "g": g})
+        else:
+            obs = [v for v in G.all_nodes(g)]
+            out.append({"op": "evans", "g": g, "extra": [v for v in obs if rng.random() < rng.choice([0.0, 0.3])]})
     # small-scope exhaustive slice: every DAG on n nodes (edges i -> j for i < j) x every latent subset,
     # names assigned by one random permutation per graph (so name order vs topological order varies)
     nmax_ex = 3 if tier == "quick" else 5
@@ -644,7 +773,7 @@ def _run_design(case):
     try:
         r = _get_result(copy.deepcopy(dag), [_V(x) for x in lat], [_V(x) for x in obs_l], _V(case["cause"]), _V(case["effect"]))
         verdict = bool(r[0])
-        out = ["ok", str(verdict).lower()]
+        out = ["ok", str(verdict).lower(), int(r.pre_nodes), int(r.pre_edges), int(r.post_nodes), int(r.post_edges)]
     except _errs() as e:
         return ["err"], f"_get_result raised {type(e).__name__}: {str(e)[:80]}", {}
     obs, di, bi = O.projection(d["nodes"], [tuple(e) for e in d["edges"]], lat)
@@ -706,8 +835,6 @@ def _enc_lv(d, rank):
 
 def request(case):
     op = case["op"]
-    if op == "design":
-        return None
     uni, rank = table(case)
     primes = [[rank[n], rank[n + SUF]] for n in uni if n + SUF in rank]
     if op == "roundtrip":
@@ -717,6 +844,8 @@ def request(case):
         return C.enc(["latent", "simplify", _enc_lv(case["d"], rank), primes])
     if op == "from_lv":
         return C.enc(["latent", "from_lv", _enc_lv(case["d"], rank)])
+    if op == "design":
+        return C.enc(["latent", "design", _enc_lv(case["d"], rank), primes, rank[case["cause"]], rank[case["effect"]]])
     if op == "evans":
         fresh = [rank[f"u_{i}"] for i in range(len(case["g"]["bi"]) + len(G.all_nodes(case["g"])) + 1)]
         return C.enc(["latent", "evans", _enc_graph(case["g"], rank), [rank[x] for x in case.get("extra", [])], fresh, primes])
@@ -741,6 +870,8 @@ def canon_model(case, rep):
     uni, _ = table(case)
     op = case["op"]
     body = rep[1]
+    if op == "design":
+        return ["ok", str(body[0]), int(body[1]), int(body[2]), int(body[3]), int(body[4])]
     if op == "roundtrip":
         return ["ok", _dec_lv(body[0], uni), _dec_graph(body[1], uni)]
     if op == "simplify":
@@ -783,7 +914,7 @@ def finding_key(case, res):
 
 
 MANIFEST = {
-    "text": ("Proof: 27 Lean theorems about the executable model of graph.py (_latent_dag / to_latent_variable_dag / "
+    "text": ("Proof: 46 Lean theorems about the executable model of graph.py (_latent_dag / to_latent_variable_dag / "
              "from_latent_variable_dag) and simplify_latent.py (four rules, simplify_latent_dag, evans_simplify), for ALL "
              "well-formed inputs, no size bound. Round trip: from(to(G)) == G for every mixed graph incl. edge-less nodes "
              "and nodes already called u_i (roundtrip, toLV_is_projection). Simplification of any well-formed acyclic LV-DAG "
@@ -792,14 +923,26 @@ MANIFEST = {
              "is idempotent literally (simplify_idem), yields a flat irredundant DAG (simplify_simplified), and the mixed graph "
              "read off it is exactly the relationally defined latent projection of the ORIGINAL DAG (simplify_projection; one "
              "lemma per rule rule1..rule4_*_sameProj; fromLV_is_projection). evans_simplify returns the projection "
-             "(evans_projection, evans_id). 'Consequently' clause: simplify_dsep_invariant proves that d-connection among observed nodes given "
-             "any observed conditioning set is the same inside the simplified and the original LV-DAG (walk formulation; "
-             "one lemma per rule), and verdict_invariant gives equal answers for every function of the projected graph "
-             "that respects __eq__ (separation tests, ID); dsep_iff_msep_projection proves that d-connection inside ANY "
-             "well-formed acyclic LV-DAG equals m-connection in its latent projection (proved by simplifying first). Not "
-             "mechanised, oracle only: the walk formulation of d-/m-connection used in these theorems = the path formulation."),
+             "(evans_projection, evans_id). 'Consequently' clause, separation: d-connection among observed nodes given any "
+             "observed conditioning set is the same inside the simplified and the original LV-DAG (simplify_dsep_invariant, one "
+             "lemma per rule) and equals m-connection in the latent projection (dsep_iff_msep_projection); the walk formulation "
+             "these are proved with is proved equal to the textbook simple-path definition MConnPath of property C04 "
+             "(dconn_walk_iff_path, mconn_walk_iff_path), and the clause is restated with it and with the executable "
+             "are_d_separated model of C04: same verdict on the LV-DAG itself (latents as ordinary nodes), on any latent "
+             "projection and on the graph read off the simplified DAG (lvdag_dsep_model_eq_projection, "
+             "simplify_preserves_dsep_model, simplify_dsep_verdict_iff_no_path). 'Consequently' clause, identifiability: the "
+             "verdict of the ID model of C02 does not depend on insertion order nor on the topological orders networkx returns "
+             "(id_verdict_equiv_congr, by induction along the ID recursion), hence is the same on the graph read off the "
+             "simplified DAG and on any latent projection of the original (simplify_id_verdict, evans_id_verdict, "
+             "evans_id_verdict_latents). verdict_invariant: the same for every function of the graph respecting __eq__. "
+             "Consumer taheri_design._get_result: never raises for observed cause != effect, reports the counts of the input "
+             "and the simplified DAG, returns the latent projection of the input, and its verdict is ID's verdict on any "
+             "latent projection of the input (design_result, design_keyError)."),
     "note": ("Trusted: Lean kernel; axioms propext/Classical.choice/Quot.sound; Spec/LatentSpec.lean (definition of latent "
-             "projection, WF, Acyclic); the hand-written model tied to the code by differential sampling on every run "
+             "projection, WF, Acyclic); Spec/SepSpec.lean (MConnPath: the textbook path definition of m-/d-connection, shared "
+             "with C04) and the definitions ValidQuery / TopoGood of Lemmas/IdTotal.lean (shared with C02); the separation and "
+             "identifiability clauses are about the C04 / C02 models (MG.dSeparated, identify), which those properties' own "
+             "correspondence checks tie to are_d_separated / identify(); the hand-written model tied to the code by differential sampling on every run "
              "(networkx DiGraph/topological_sort behaviour under mutation is modelled); Python string order of names is "
              "passed to the model as a rank table. Five defects were found by this check and fixed in y0 (edge-less nodes "
              "dropped by both conversions, single-pass widow removal, u_i and _prime name collisions); the model follows "
